@@ -184,6 +184,11 @@ class SuperOperator(BasisManaged):
         if copy:
             import copy
             oper_ven = copy.copy(oper)
+            # a copy made inside a basis context is an object of its own: it
+            # has to be registered, so that it is transformed back on exit
+            cb = self.manager.get_current_basis()
+            if (cb != 0) and (oper_ven.get_current_basis() == cb):
+                self.manager.register_with_basis(cb, oper_ven)
             oper_ven.data = numpy.tensordot(self.data, oper.data)
             return oper_ven
         else:
